@@ -268,6 +268,7 @@ var atomOf = map[string]string{
 	"did not receive proposal for this round":            "noProposal",
 	"prepare msg type is wrong":                          "notPrepare",
 	"wrong msg round":                                    "wrongRound",
+	"wrong msg identifier":                               "wrongMsgIdentifier",
 	"prepareData invalid":                                "prepareInvalid",
 	"proposed data mistmatch":                            "dataMismatch",
 	"commit msg type is wrong":                           "notCommit",
